@@ -210,3 +210,15 @@ CHECKS["C17"] = {
         {"kind": "fuzz", "bin": "asan/fuzz_C17", "cases": P(40000, 1500000), "procs": P(4, 16), "max_len": 6000},
     ],
 }
+
+CHECKS["C11"] = {
+    "level": "fault_enumeration",
+    "technique": "crash-point enumeration: per generated update scenario every write system call on the target (exhaustive up to 120, thorough 400, kill points; sampled above) is turned into a kill point via -Wl,--wrap=write in a forked child, with a generated fraction of the interrupted write performed; then the whole procedure is re-run with fresh contexts; oracle = reference recomputation of which chunks were completely and correctly on disk, convergence to B, no trust in partial chunks, no re-fetch of complete chunks or of chunks the old file provides",
+    "level_text": "Kill points are enumerated exhaustively per scenario (every write call of the update, including those that end inside a chunk or a multipart part header because responses are delivered in 1..45-byte fragments); scenarios are generated. For a third of the scenarios the resume is interrupted once more. The resume must converge to B and its requests must avoid every chunk the reference finds complete on disk at the kill point.",
+    "level_note": "Trusted: reference digests, the in-process server, the update-procedure mirror in gen/dl.hpp (kept call-for-call identical to zckdl main). A kill is modelled as process death between or inside write() calls; writes go straight to the descriptor (no buffering in the library), so the file content at the kill is exactly what had been written.",
+    "rule": "case = scenario (A, B, initial target, limit, server cap, fragment size) x kill point k x written fraction. Non-trivial = the kill left at least one partially written chunk AND at least one complete chunk on disk; distinct = (scenario, k) by construction.",
+    "assumptions": ["the uninterrupted update of the scenario succeeds (else the scenario is C04's business and is skipped)", "no power loss / reordering below the write() level"],
+    "runs": [
+        {"bin": "asan/C11", "cases": P(28, 500), "procs": P(8, 16), "size": 70, "shrink_budget": 40, "cpu_limit": 300},
+    ],
+}
